@@ -18,7 +18,20 @@ def step (s : TState) (toks : List String) : TState × String :=
   | "run" :: _ =>
     match argNat? toks "gas" with
     | none => (s, "bad-op")
-    | some g => ({ gas := g, create := (arg? toks "mode") == some "create" }, "ok")
+    | some g => ({ gas := g, create := (arg? toks "mode") == some "create" || (arg? toks "mode") == some "rtcreate" }, "ok")
+  | "pre" :: _ =>
+    match arg? toks "set", argNat? toks "addr", argNat? toks "gas", argHex? toks "in" with
+    | some set, some a, some g, some inp => (s, Model.Evm.Pre.answer set a g inp)
+    | _, _, _, _ => (s, "bad-op")
+  | "opsseen" :: _ =>
+    match argHex? toks "list" with
+    | some l =>
+      let seen := l.map (·.toNat)
+      match Gen.EvmTable.rows.find? (fun r => r.valid && !seen.contains r.op) with
+      | none => (s, "ok")
+      | some r => (s, s!"bad:opcode-never-executed:{r.name}")
+    | none => (s, "bad-op")
+  | "upgrade" :: _ => (s, "err")     -- evm.Upgrade: "evm should not support upgrade"
   | "enter" :: _ =>
     if s.dead then (s, "ok") else
     match argNat? toks "d", argNat? toks "gas", parseCode toks with
